@@ -98,7 +98,7 @@ func domainLits(kind string, small bool) []string {
 	case "int":
 		return []string{"0", "1", "2", "-1"}
 	case "uint":
-		return []string{"0", "1", "2", "3"}
+		return []string{"0", "1", "2", "3", "255", "256"}
 	}
 	if strings.HasPrefix(kind, "[]") {
 		el := domainLits(kind[2:], true)
